@@ -961,6 +961,15 @@ func judge(c *hx.Ctx, ln int, prec string, body []byte, rows []storedRow, errKin
 
 func Run(c *hx.Ctx) error {
 	c.Stats.Rule = "70% structured valid points (measurement/tags/field keys/strings over plain, special, unicode and non-UTF-8 bytes with random escape spellings; ints incl. 2^53 and int64 extremes; floats in every spelling incl. exponents, long mantissas, overflow/underflow edges, f suffix; all boolean spellings; timestamps x 12 precision labels), 30% malformed (single-byte damage, nasty value/timestamp tokens, structural); every line as a one-line block, plus batches (20% of the cases): half of them 2-6 lines mixing valid, invalid, empty, comment and CRLF lines, half of them 2-4 valid lines with the presence of an escape in each of the last two lines and the final newline chosen explicitly (all 8 combinations); every row of every block is compared with the reference reading. Non-trivial: the line has an escape, an integer with > 15 digits, an exponent, or is malformed; distinct by op line."
+	if c.Arg("mode", "") == "probe" {
+		return runProbe(c)
+	}
+	if c.Arg("mode", "") == "replay" {
+		return runReplay(c)
+	}
+	if c.Arg("mode", "") == "e2e" {
+		return runE2E(c, hx.NewRng(c.Seed^0xe2e), c.Budget(300, 6000))
+	}
 	n := c.Budget(20000, 1500000)
 	r := hx.NewRng(c.Seed)
 	nBatch := n / 5
